@@ -8,7 +8,7 @@ independent Go visibility/import oracle.
 """
 import os
 
-THEOREMS = ["IstioModel.C07.HostTheorems", "IstioModel.C07.VisTheorems"]
+THEOREMS = ["IstioModel.C07.HostTheorems", "IstioModel.C07.VisTheorems", "IstioModel.C07.ScopeTheorems"]
 STREAMS = [("host", 3000, 60000), ("vis", 1500, 30000), ("scope", 3000, 60000)]
 
 
